@@ -1443,7 +1443,7 @@ func init() {
 		},
 		Assumptions: []string{"std-library calls (os, io, fmt, errors, filepath) do not panic", "operation tables are replaced only in tests", "POSIX semantics of O_EXCL / rename / remove"},
 		Technique:   "typestate (acquire/dispose) must-dataflow on SSA CFGs with failure-edge generation and deferred-closure resolution; completion-flag control-dependence + set-last discipline; who-may-call tables for destructive primitives and operation-table fields; call-triviality fixpoint over the call graph",
-		Note:        "Decides the code-shape clauses only. Panic sources are over-approximated as 'any call that can reach module code or a caller-supplied callback'. Genuine violations found on the pinned tree are listed in known_findings.json (CLI stream wrappers finalize(api.X()) skip the finalizer on panic; in-place incremental writers).",
+		Note:        "Decides the code-shape clauses only. Panic sources are over-approximated as 'any call that can reach module code or a caller-supplied callback'. Genuine violations found on the pinned tree were repaired in /repo (known_findings.json: fixed entries), including the 33 CLI stream wrappers that first were recorded as known findings.",
 	})
 }
 
